@@ -13,7 +13,8 @@ Intf(id, named, marked, lookalike, doc, gen, nmeth, short, oneline, mdoc, trail,
 TMark(id) == Item("tmark", id, "type", TRUE, FALSE, FALSE, FALSE, TRUE, FALSE, 0, FALSE, FALSE, FALSE, FALSE, 1)
 Float(id) == Item("float", id, "float", FALSE, FALSE, FALSE, FALSE, FALSE, FALSE, 0, FALSE, FALSE, FALSE, FALSE, 1)
 
-Lay(items, pkgdoc, build, imports, sibling) == [items |-> items, pkgdoc |-> pkgdoc, build |-> build, imports |-> imports, sibling |-> sibling]
+LayE(items, pkgdoc, build, imports, sibling, embed) == [items |-> items, pkgdoc |-> pkgdoc, build |-> build, imports |-> imports, sibling |-> sibling, embed |-> embed]
+Lay(items, pkgdoc, build, imports, sibling) == LayE(items, pkgdoc, build, imports, sibling, "none")
 Rest == i = 1 /\ out = << >> /\ rejected = FALSE /\ pc = "find"
 
 \* ---- C03: every shape of one converter interface x neighbours
@@ -57,6 +58,7 @@ Mk(kind, id) == CASE kind = "named"     -> Medium(id, TRUE)
                   [] kind = "plain"     -> Plain(id)
                   [] kind = "lookalike" -> Intf(id, FALSE, FALSE, TRUE, TRUE, FALSE, 1, FALSE, FALSE, FALSE, FALSE, FALSE, 1)
                   [] kind = "tmark"     -> TMark(id)
+Emb == Intf("emb", FALSE, FALSE, FALSE, TRUE, FALSE, 1, FALSE, FALSE, FALSE, FALSE, FALSE, 1)
 \* at most one interface may be called Convergen in one file
 OneNamed(ks) == Cardinality({j \in DOMAIN ks : ks[j] = "named"}) <= 1
 InitSelect ==
@@ -65,7 +67,14 @@ InitSelect ==
          /\ OneNamed(ks)
          \* two interfaces called Convergen in one package would not compile
          /\ (sibling = "named" => \A j \in DOMAIN ks : ks[j] # "named")
-         /\ layout = Lay([j \in 1..n |-> Mk(ks[j], CASE j = 1 -> "i1" [] j = 2 -> "i2" [] OTHER -> "i3")], TRUE, "gobuild", "used", sibling)
+         /\ LET its == [j \in 1..n |-> Mk(ks[j], CASE j = 1 -> "i1" [] j = 2 -> "i2" [] OTHER -> "i3")]
+                hasConv == \E j \in 1..n : ks[j] \in {"named", "marked"} IN
+            \E embed \in {"none", "file", "sibling"}, embFirst \in B :
+              /\ (embed # "none" => hasConv)
+              /\ (embed # "file" => ~embFirst)
+              \* the embedded interface of this file is an unmarked interface like any other, before or after its user
+              /\ layout = LayE(IF embed = "file" THEN (IF embFirst THEN <<Emb>> \o its ELSE its \o <<Emb>>) ELSE its,
+                               TRUE, "gobuild", "used", sibling, embed)
   /\ Rest
 
 SpecAccept == InitAccept /\ [][Next]_vars
